@@ -18,6 +18,16 @@ Correspondence: oracle = the compilers.  Python generates compile probes (harnes
                 generator draws them at parameter, bound-argument and result positions on all four routes (slot, connect,
                 accumulated-signal connect, signal_connect) and has two dedicated defect flavours (`explicitresult`,
                 `explicitparam`); retype() is the one place where the explicit conversions are expected to be accepted.
+                Probe family "slot object into entry point": the sixteen connect entry points of signal.h ({signal,
+                trackable_signal} x {plain, ::accumulated<Acc>} x {connect, connect_first} x {const slot_type&, slot_type&&};
+                model: the table `entryDecl`, theorem `entry_points_agree`) are each called — the overload selected by
+                hand through a pointer to member of exactly its type, or by the plain call expression — with an argument
+                that is a slot *object* `sigc::slot<U> so` of another slot type, written `so`, `std::as_const(so)` or
+                `std::move(so)`; U is drawn compatible with / defective against the signal's signature with the same defect
+                flavours as above (wrong arity, non-convertible parameter, non-const reference from a value, rvalue
+                reference, incompatible / void / explicit-only result, explicit-only parameter).  The declared parameter
+                type `slot_type` is the whole type check of these members (their bodies forward to signal_base, which
+                stores any slot_base): a `slot_base` parameter would bind any slot object directly, unchecked.
 Monitor:        harness/types_gen.statement_category — the statement of C05 per probe, from first-principle tables.
 """
 import json
@@ -44,6 +54,9 @@ REQUIRED = [
     "Sigc.C05.erased_call_type_exact",
     "Sigc.C05.explicit_only_result_rejected", "Sigc.C05.explicit_only_type_result_rejected_for_arithmetic",
     "Sigc.C05.explicit_only_result_connection_rejected", "Sigc.C05.acceptsRoute_retOk",
+    "Sigc.C05.entry_table_slot_type", "Sigc.C05.entry_points_agree", "Sigc.C05.slot_object_entry_points_agree",
+    "Sigc.C05.slot_object_entry_iff", "Sigc.C05.slot_object_forms_alike", "Sigc.C05.same_slot_type_entry",
+    "Sigc.C05.entry_accepts_sound", "Sigc.C05.call_accepts_iff", "Sigc.C05.incompatible_slot_object_rejected",
 ]
 TRUSTED = [
     "Lean 4.33.0 kernel; axioms per theorem as audited by #print axioms (subset of propext, Quot.sound, Classical.choice)",
@@ -65,6 +78,14 @@ ASSUMPTIONS = [
     "hide / bind / retype (retype static_casts the *arguments*; retype_return, whose purpose is to cast the result, is "
     "not in the universe); routes slot<Sig> s = f, signal<Sig>::connect(f), signal<Sig>::accumulated<Acc>::connect(f), "
     "signal_connect(sig, ...); arities 0-3 (theorems: all arities)",
+    "connect entry points: the sixteen members {signal, trackable_signal} x {plain, ::accumulated<Acc>} x {connect, "
+    "connect_first} x {const slot_type&, slot_type&&}, each selected by hand (static_cast of the member's address to the "
+    "pointer-to-member type with exactly that parameter — which also pins the declared parameter type) or through the call "
+    "expression; argument: a slot object `sigc::slot<U> so` (U: result void or an object type, no adaptor around it) as "
+    "lvalue / const lvalue / rvalue, or one of the ordinary functor kinds; a slot object is created from a lambda of "
+    "literally its own signature",
+    "an lvalue of the signal's *own* slot_type handed to the hand-selected slot_type&& overload is rejected (value "
+    "category, not typing): the monitor leaves it unclassified and only model == compilers is checked",
     "excluded corner (compilers disagree on the unchanged tree): `const A*&&` parameter facing an `A*&&` signature "
     "parameter (CWG 2352: g++-12 rejects the temporary that clang++-14 and the standard create)",
     "excluded corner (compilers disagree on the unchanged tree): static_cast<const bool&>/<bool&&> of a class with "
@@ -83,7 +104,11 @@ ASSUMPTIONS = [
 PARTIAL = []
 EXPLANATION = ("accepts_iff proves, for all arities, that the model accepts exactly when arity, every parameter binding "
                "(against what the library passes: passed_as) and the result conversion hold; the correspondence shows "
-               "the model's verdict is the compilers' verdict on the current tree.")
+               "the model's verdict is the compilers' verdict on the current tree.  entry_points_agree / "
+               "entry_accepts_sound prove that each of the sixteen connect / connect_first overloads (table entryDecl) "
+               "accepts exactly what slot_type's constructors accept, so that a slot object of another slot type is judged "
+               "like a functor with its signature; the probe family 'slot object into entry point' shows the table is "
+               "the code's.")
 
 CXX = [("g++", "g++"), ("clang++", "clang++-14")]
 STD = ["-std=c++17", "-w"]
@@ -554,6 +579,134 @@ def generated_pool(rng, n, stats):
     return out
 
 
+ENTRY_DEFECTS = [("arity", 3), ("nonconv", 4), ("nonconstref", 4), ("rref", 3), ("result", 4), ("voidness", 2),
+                 ("explicitresult", 3), ("explicitparam", 2)]
+ENTRY_FUNCTOR_KINDS = ["lam", "fn", "ptrfun", "fobj", "fobjc", "mem:o:n", "mem:o:c", "mem:c:c"]
+
+
+def gen_entry_probe(rng, stats):
+    """family "slot object into entry point": a signal signature and a second signature U (compatible with it, or with
+    one defect, or unrelated, or identical), `sigc::slot<U> so = <lambda>;`, handed as `so` / `std::as_const(so)` /
+    `std::move(so)` to one of the sixteen connect entry points (uniform over signal class x accumulated x
+    connect/connect_first; the overload is selected by hand half of the time — `c` / `r` equally — and left to the call
+    expression otherwise).  One probe in seven hands over an ordinary functor instead of a slot object."""
+    fam = rng.choice(G.EP_FAMILIES)
+    route = "%s:%s" % (fam, rng.weighted([("any", 2), ("c", 1), ("r", 1)]))
+    slotobj = rng.chance(0.86)
+    kind = "slotobj:" + rng.choice(G.SLOT_FORMS) if slotobj else rng.choice(ENTRY_FUNCTOR_KINDS)
+    arity = rng.weighted([(0, 1), (1, 8), (2, 5), (3, 3)])
+    sig = [gen_param(rng) for _ in range(arity)]
+    sret = rng.weighted([("void", 5), ("val", 5)])
+    if sret == "val":
+        sret = gen_base(rng) + ":v"
+    rets = G.SIG_RETS if slotobj else G.FN_RETS          # a slot's result is void or an object type
+    args = [G.library_passes(s) for s in sig]
+    flavour = rng.weighted([("compatible", 8), ("defect", 9), ("identical", 1), ("random", 2)])
+    if flavour == "identical":
+        fpar, fret = list(sig), sret
+    elif flavour == "random":
+        fpar = [gen_param(rng) for _ in range(len(args) if rng.chance(0.8) else rng.below(4))]
+        fret = rng.choice(rets)
+    else:
+        fpar = [rng.choice(compatible_params(a)) for a in args]
+        if sret == "void":
+            fret = "void"
+        else:
+            sb = sret.split(":")[0]
+            fret = rng.choice([t for t in rets if t != "void" and (t.split(":")[0], sb) in G.CONVERTIBLE])
+    if flavour == "defect":
+        d = rng.weighted(ENTRY_DEFECTS)
+        flavour = "defect:" + d
+        if d == "arity":
+            if fpar and rng.chance(0.5):
+                fpar.pop(rng.below(len(fpar)))
+            else:
+                fpar.insert(rng.below(len(fpar) + 1), gen_param(rng))
+        elif d in ("nonconv", "nonconstref", "rref") and fpar:
+            i = rng.below(len(fpar))
+            b, how = args[i]
+            if d == "nonconv":
+                bad = [t for t in G.ALL_PARAMS if (b, t.split(":")[0]) not in G.CONVERTIBLE]
+            elif d == "nonconstref":
+                bad = [t for t in G.ALL_PARAMS if t[-1] == "l" and
+                       (how != "lvalue" or (b, t.split(":")[0]) not in G.SAME_OR_DERIVED_OBJECT)]
+            else:
+                bad = [t for t in G.ALL_PARAMS if t[-1] == "r"]
+            fpar[i] = rng.choice(bad)
+        elif d == "explicitresult":
+            fb = rng.weighted([("E", 5), ("Xb", 3), ("Xd", 2)])
+            sret = rng.choice(explicit_only_targets(fb)) + ":v"
+            fret = fb + ":v"
+        elif d == "explicitparam" and fpar:
+            cand = [i for i in range(len(fpar)) if explicit_only_targets(args[i][0])]
+            if cand:
+                i = rng.choice(cand)
+                fpar[i] = rng.choice(explicit_only_targets(args[i][0])) + ":" + rng.choice("vvcr")
+            else:
+                fpar[rng.below(len(fpar))] = rng.choice(G.EXPLICIT_ONLY_BASES) + ":" + rng.choice("vc")
+        elif d == "result":
+            if sret == "void":
+                sret = gen_base(rng) + ":v"
+            sb = sret.split(":")[0]
+            bad = [t for t in rets if t != "void" and (t.split(":")[0], sb) not in G.CONVERTIBLE]
+            fret = rng.choice(bad) if bad else "void"
+        elif d == "voidness":
+            if sret == "void":
+                fret = rng.choice([t for t in rets if t != "void"])
+            else:
+                fret = "void"
+    stats["entry:" + flavour] = stats.get("entry:" + flavour, 0) + 1
+    return G.Probe(route, "none", kind, sret, sig, fret, fpar)
+
+
+def entry_pool(rng, n, stats):
+    seen, out, tries = set(), [], 0
+    while len(out) < n and tries < n * 20:
+        tries += 1
+        p = gen_entry_probe(rng, stats)
+        if excluded(p) or p.key() in seen:
+            continue
+        seen.add(p.key())
+        out.append(p)
+    return out
+
+
+def entry_distribution(results):
+    """measured, over the probes that were compiled (corpus + generated): how the family "slot object into entry
+    point" covers the sixteen entry points and the eight call expressions"""
+    d = {"probes": 0, "signal_class": {}, "accumulated": {}, "function": {}, "overload": {}, "entry_point": {},
+         "argument": {}, "slot_object_form": {}, "slot_object_of_other_slot_type": 0, "slot_object_of_same_slot_type": 0,
+         "model_verdict": {}, "other_slot_type_verdict": {}, "statement_category": {}, "reject_reason": {},
+         "slot_object_on_older_routes": 0}
+    bump = lambda k, v: d[k].__setitem__(v, d[k].get(v, 0) + 1)
+    for r in results:
+        p = r["probe"]
+        so = p.kind.startswith("slotobj:")
+        if not p.route.startswith("ep:"):
+            d["slot_object_on_older_routes"] += so
+            continue
+        _, c, a, f, o = p.route.split(":")
+        d["probes"] += 1
+        bump("signal_class", {"sig": "signal", "tsig": "trackable_signal"}[c])
+        bump("accumulated", a)
+        bump("function", {"connect": "connect", "first": "connect_first"}[f])
+        bump("overload", {"c": "const slot_type& (by hand)", "r": "slot_type&& (by hand)", "any": "call expression"}[o])
+        bump("entry_point", p.route[3:])
+        bump("argument", "slot object" if so else "functor " + p.kind.split(":")[0])
+        bump("model_verdict", r["model"])
+        bump("statement_category", r["cat"].split("(")[0].strip())
+        if r["model"] != "accept":
+            bump("reject_reason", r["why"])
+        if so:
+            bump("slot_object_form", {"l": "lvalue", "c": "const lvalue", "r": "rvalue"}[p.kind.split(":")[1]])
+            same = tuple(p.sig) == tuple(p.fpar) and p.sret == p.fret
+            d["slot_object_of_same_slot_type"] += same
+            d["slot_object_of_other_slot_type"] += not same
+            if not same:
+                bump("other_slot_type_verdict", r["model"])
+    return d
+
+
 def balanced(rng, pool, n):
     """choose n probes from the pool, half expected accept / half expected reject (by the model)"""
     ans = model([G.line(p) for p in pool])
@@ -901,6 +1054,8 @@ def correspondence(ctx):
         n = 3300 if ctx.thorough else 660
         pool = generated_pool(ctx.rng, n * 4, stats)
         probes = balanced(ctx.rng, pool, n)
+        n_ep = 480 if ctx.thorough else 96
+        probes += balanced(ctx.rng, entry_pool(ctx.rng, n_ep * 4, stats), n_ep)
         if ctx.thorough:
             seen = {p.key() for p in probes}
             for p in exhaustive_arity1() + object_method_table() + result_table():
@@ -933,6 +1088,8 @@ def correspondence(ctx):
                     c["shrink_error"] = str(ex)
         dis += d
         mon += m
+        # report first what the property is about: a connection the statement forbids that compiles
+        mon.sort(key=lambda c: 0 if str(c.get("statement_category", "")).startswith("must_reject") else 1)
         allres = cres + gres
         # distribution (measured)
         dist = {"route": {}, "kind": {}, "adaptor": {}, "arity": {}, "model_verdict": {}, "reject_reason": {},
@@ -946,6 +1103,7 @@ def correspondence(ctx):
             if r["model"] != "accept":
                 dist["reject_reason"][r["why"]] = dist["reject_reason"].get(r["why"], 0) + 1
         dist["explicit_only_types"] = explicit_only_distribution(allres)
+        dist["entry_points"] = entry_distribution(allres)
         dist["tables"] = {"binds_rows": len(brow), "binds_true": sum(1 for x in brow if x[2]),
                           "cast_rows": len(crow), "cast_true": sum(1 for x in crow if x[2]),
                           "passed_spies": len(srow), "c20_cases": len(rows20), "corpus_probes": len(corp),
@@ -995,7 +1153,7 @@ def search(ctx, disagreements):
                 for t in G.ALL_PARAMS:
                     q = p.copy(sig=p.sig[:i] + (t,) + p.sig[i + 1:])
                     neigh[q.key()] = q
-            for k in G.KINDS_DIRECT + G.KINDS_MEM:
+            for k in G.KINDS_DIRECT + G.KINDS_MEM + G.KINDS_SLOTOBJ:
                 q = p.copy(kind=k)
                 neigh[q.key()] = q
             for fr in G.FN_RETS:
